@@ -1,5 +1,348 @@
-/- Helper lemmas for C03. -/
+/- Helper lemmas for C03: frame lemmas for the traversal model's operations. -/
 import DhtVerif.Model.Traversal
+import DhtVerif.Lemmas.C18
 namespace Dht
+
+/-! ### Induction over `exec` -/
+
+theorem Trav.exec_inv {c : TravCfg} (P : Trav → Prop)
+    (hstep : ∀ s e s', P s → s.step c e = some s' → P s') :
+    ∀ (evs : List TravEv) (s s' : Trav), P s → Trav.exec c s evs = some s' → P s' := by
+  intro evs
+  induction evs with
+  | nil =>
+    intro s s' hp h
+    simp only [Trav.exec, Option.some.injEq] at h
+    subst h; exact hp
+  | cons e es ih =>
+    intro s s' hp h
+    simp only [Trav.exec] at h
+    cases hs : s.step c e with
+    | none => simp [hs] at h
+    | some s1 => rw [hs] at h; exact ih s1 s' (hstep s e s1 hp hs) h
+
+/-! ### The sorted set without well-formedness assumptions
+
+`candCompare = .eq` identifies exactly the candidates with the same sort key
+(known-ness, distance, address), so replacing one by the other keeps the order. -/
+
+abbrev SSet.pw (t : Id) (xs : List Cand) : Prop := xs.Pairwise (fun a b => closerThan t a b = true)
+
+theorem candCompare_eq_congr (t : Id) (c x y : Cand) (h : candCompare t c x = .eq) :
+    closerThan t c y = closerThan t x y := by
+  have h1 : closerThan t c x = false := by
+    unfold candCompare at h
+    cases h' : closerThan t c x <;> simp [h'] at h ⊢
+  have h2 : closerThan t x c = false := by
+    unfold candCompare at h
+    cases h' : closerThan t x c <;> simp [h1, h'] at h ⊢
+  have haddr : ∀ (_ : c.addr.cmp x.addr ≠ .lt) (_ : x.addr.cmp c.addr ≠ .lt), c.addr = x.addr := by
+    intro a b
+    apply Classical.byContradiction
+    intro hne
+    rcases Addr.cmp_total _ _ hne with h | h
+    · exact a h
+    · exact b h
+  cases hc : c.id with
+  | none =>
+    cases hx : x.id with
+    | none =>
+      have e1 : ¬ c.addr.cmp x.addr = .lt := by
+        intro e; rw [(closerThan_none_none t c x hc hx).mpr e] at h1; cases h1
+      have e2 : ¬ x.addr.cmp c.addr = .lt := by
+        intro e; rw [(closerThan_none_none t x c hx hc).mpr e] at h2; cases h2
+      have := haddr e1 e2
+      unfold closerThan
+      rw [hc, hx, this]
+    | some xi =>
+      rw [closerThan_some_none t x c xi hx hc] at h2; cases h2
+  | some ci =>
+    cases hx : x.id with
+    | none =>
+      rw [closerThan_some_none t c x ci hc hx] at h1; cases h1
+    | some xi =>
+      have hd : Id.distance ci t = Id.distance xi t := by
+        apply Classical.byContradiction
+        intro hne
+        rcases Id.cmp_total _ _ hne with e | e
+        · rw [(closerThan_some_some t c x ci xi hc hx).mpr (Or.inl e)] at h1; cases h1
+        · rw [(closerThan_some_some t x c xi ci hx hc).mpr (Or.inl e)] at h2; cases h2
+      have e1 : ¬ c.addr.cmp x.addr = .lt := by
+        intro e; rw [(closerThan_some_some t c x ci xi hc hx).mpr (Or.inr ⟨hd, e⟩)] at h1; cases h1
+      have e2 : ¬ x.addr.cmp c.addr = .lt := by
+        intro e; rw [(closerThan_some_some t x c xi ci hx hc).mpr (Or.inr ⟨hd.symm, e⟩)] at h2; cases h2
+      have := haddr e1 e2
+      unfold closerThan
+      rw [hc, hx, this]
+      cases y.id <;> simp only [hd]
+
+theorem SSet.add_pw (t : Id) (xs : List Cand) (c : Cand) (h : SSet.pw t xs) : SSet.pw t (SSet.add t xs c) := by
+  induction xs with
+  | nil => simp [SSet.add, SSet.pw]
+  | cons x xs ih =>
+    have hx := List.pairwise_cons.mp h
+    unfold SSet.add
+    split
+    · rename_i hlt
+      have hcx := (candCompare_lt t c x).mp hlt
+      refine List.pairwise_cons.mpr ⟨?_, h⟩
+      intro y hy
+      rcases List.mem_cons.mp hy with rfl | hy
+      · exact hcx
+      · exact closerThan_trans t c x y hcx (hx.1 y hy)
+    · rename_i heq
+      refine List.pairwise_cons.mpr ⟨?_, hx.2⟩
+      intro y hy
+      rw [candCompare_eq_congr t c x y heq]
+      exact hx.1 y hy
+    · rename_i hgt
+      have hxc := candCompare_gt t c x hgt
+      refine List.pairwise_cons.mpr ⟨?_, ih hx.2⟩
+      intro y hy
+      rcases SSet.mem_add_imp t xs c y hy with rfl | hy
+      · exact hxc
+      · exact hx.1 y hy
+
+theorem SSet.delete_head (t : Id) (a : Cand) (rest : List Cand) : SSet.delete t (a :: rest) a = rest := by
+  simp [SSet.delete, candCompare_self]
+
+/-! ### `addNode` / `addNodes` -/
+
+/-- Everything `AddNodes` may do to a state: only the frontier and the generation
+change; the generation never decreases and stays the same only if nothing changed. -/
+structure Trav.AddsTo (c : TravCfg) (ns : List Cand) (s s' : Trav) : Prop where
+  queried : s'.queried = s.queried
+  closest : s'.closest = s.closest
+  outstanding : s'.outstanding = s.outstanding
+  inflight : s'.inflight = s.inflight
+  run : s'.run = s.run
+  stopping : s'.stopping = s.stopping
+  stopper : s'.stopper = s.stopper
+  started : s'.started = s.started
+  gen_le : s.gen ≤ s'.gen
+  same : s'.gen = s.gen → s'.unq = s.unq
+  sorted : SSet.pw c.target s.unq → SSet.pw c.target s'.unq
+  mem : ∀ x ∈ s'.unq, x ∈ ns ∨ x ∈ s.unq
+
+theorem Trav.addNode_cases (c : TravCfg) (s : Trav) (n : Cand) :
+    s.addNode c n = s ∨ s.addNode c n = { s with unq := SSet.add c.target s.unq n, gen := s.gen + 1 } := by
+  unfold Trav.addNode
+  split
+  · left; rfl
+  · split
+    · left; rfl
+    · right; rfl
+
+theorem Trav.AddsTo.refl (c : TravCfg) (s : Trav) : Trav.AddsTo c [] s s :=
+  ⟨rfl, rfl, rfl, rfl, rfl, rfl, rfl, rfl, Nat.le_refl _, fun _ => rfl, id, fun _ h => Or.inr h⟩
+
+theorem Trav.addNode_addsTo (c : TravCfg) (s : Trav) (n : Cand) : Trav.AddsTo c [n] s (s.addNode c n) := by
+  rcases Trav.addNode_cases c s n with h | h <;> rw [h]
+  · exact ⟨rfl, rfl, rfl, rfl, rfl, rfl, rfl, rfl, Nat.le_refl _, fun _ => rfl, id, fun _ h => Or.inr h⟩
+  · refine ⟨rfl, rfl, rfl, rfl, rfl, rfl, rfl, rfl, Nat.le_succ _, ?_, ?_, ?_⟩
+    · intro e; simp at e
+    · exact SSet.add_pw c.target s.unq n
+    · intro x hx
+      rcases SSet.mem_add_imp c.target s.unq n x hx with rfl | hx
+      · left; simp
+      · right; exact hx
+
+theorem Trav.AddsTo.trans {c : TravCfg} {ns ms : List Cand} {s s' s'' : Trav}
+    (h1 : Trav.AddsTo c ns s s') (h2 : Trav.AddsTo c ms s' s'') : Trav.AddsTo c (ns ++ ms) s s'' := by
+  refine ⟨h2.queried.trans h1.queried, h2.closest.trans h1.closest, h2.outstanding.trans h1.outstanding,
+    h2.inflight.trans h1.inflight, h2.run.trans h1.run, h2.stopping.trans h1.stopping,
+    h2.stopper.trans h1.stopper, h2.started.trans h1.started, Nat.le_trans h1.gen_le h2.gen_le, ?_,
+    fun h => h2.sorted (h1.sorted h), ?_⟩
+  · intro e
+    have a := h1.gen_le
+    have b := h2.gen_le
+    rw [h2.same (by omega), h1.same (by omega)]
+  · intro x hx
+    rcases h2.mem x hx with h | h
+    · left; exact List.mem_append_right _ h
+    · rcases h1.mem x h with h | h
+      · left; exact List.mem_append_left _ h
+      · right; exact h
+
+theorem Trav.addNodes_addsTo (c : TravCfg) (ns : List Cand) (s : Trav) :
+    Trav.AddsTo c ns s (s.addNodes c ns) := by
+  induction ns generalizing s with
+  | nil => exact Trav.AddsTo.refl c s
+  | cons n ns ih =>
+    have := (Trav.addNode_addsTo c s n).trans (ih (s.addNode c n))
+    simpa [Trav.addNodes] using this
+
+theorem Trav.haveQuery_congr (c : TravCfg) (s s' : Trav) (hu : s'.unq = s.unq) (hc : s'.closest = s.closest) :
+    s'.haveQuery c = s.haveQuery c := by
+  unfold Trav.haveQuery; rw [hu, hc]
+
+/-! ### Structural invariant -/
+
+structure Trav.Core (c : TravCfg) (s : Trav) : Prop where
+  sorted : SSet.pw c.target s.unq
+  queriedEq : s.started.map Addr.strKey = s.queried
+  nodup : s.queried.Nodup
+  inflSub : (s.inflight.map (·.1)).Sublist s.started
+  outEq : s.outstanding = s.inflight.length
+  runGen : ∀ g o, s.run = .sleeping g o → g ≤ s.gen
+  stopGen : ∀ g, s.stopper = .sleeping g → g ≤ s.gen
+  stopOut : ∀ g, s.stopper = .sleeping g → s.gen = g → s.outstanding ≠ 0
+  stopIff : s.stopper ≠ .none ↔ s.stopping = true
+
+theorem Trav.Core.init (c : TravCfg) : Trav.Core c {} := by
+  refine ⟨List.Pairwise.nil, rfl, List.nodup_nil, by simp, rfl, ?_, ?_, ?_, ?_⟩ <;> simp
+
+theorem Trav.Core.started_nodup {c : TravCfg} {s : Trav} (h : Trav.Core c s) : s.started.Nodup := by
+  have := h.nodup
+  rw [← h.queriedEq] at this
+  exact (List.pairwise_map.mp this).imp (fun hne e => hne (by rw [e]))
+
+theorem Trav.Core.inflight_nodup {c : TravCfg} {s : Trav} (h : Trav.Core c s) :
+    (s.inflight.map (·.1)).Nodup := h.inflSub.nodup h.started_nodup
+
+/-! ### `startQuery` / `startLoop` -/
+
+theorem Trav.startQuery_cases (c : TravCfg) (s : Trav) :
+    (s.unq = [] ∧ s.startQuery c = s) ∨
+    ∃ a rest, s.unq = a :: rest ∧
+      ((s.queried.contains a.addr.strKey = true ∧ s.startQuery c = { s with unq := rest }) ∨
+       (s.queried.contains a.addr.strKey = false ∧
+        s.startQuery c = { s with unq := rest, queried := s.queried ++ [a.addr.strKey], outstanding := s.outstanding + 1, inflight := s.inflight ++ [(a.addr, .inDoQuery)], started := s.started ++ [a.addr] })) := by
+  unfold Trav.startQuery
+  cases hu : s.unq with
+  | nil => left; simp
+  | cons a rest =>
+    right
+    refine ⟨a, rest, rfl, ?_⟩
+    simp only [SSet.delete_head]
+    cases hq : s.queried.contains a.addr.strKey
+    · right; simp
+    · left; simp
+
+/-- Everything the inner start loop may do. -/
+structure Trav.Launch (c : TravCfg) (s s' : Trav) : Prop where
+  gen : s'.gen = s.gen
+  run : s'.run = s.run
+  stopping : s'.stopping = s.stopping
+  stopper : s'.stopper = s.stopper
+  closest : s'.closest = s.closest
+  out_le : s.outstanding ≤ s'.outstanding
+  core : Trav.Core c s → Trav.Core c s'
+  unqSub : s'.unq.Sublist s.unq
+  queriedMem : ∀ k ∈ s'.queried, k ∈ s.queried ∨ ∃ n ∈ s.unq, n.addr.strKey = k
+  inflMem : ∀ e ∈ s'.inflight, e ∈ s.inflight ∨ e.2 = .inDoQuery
+
+theorem Trav.Launch.refl (c : TravCfg) (s : Trav) : Trav.Launch c s s :=
+  ⟨rfl, rfl, rfl, rfl, rfl, Nat.le_refl _, id, List.Sublist.refl _, fun _ h => Or.inl h, fun _ h => Or.inl h⟩
+
+theorem Trav.Launch.trans {c : TravCfg} {s s' s'' : Trav} (h1 : Trav.Launch c s s') (h2 : Trav.Launch c s' s'') :
+    Trav.Launch c s s'' := by
+  refine ⟨h2.gen.trans h1.gen, h2.run.trans h1.run, h2.stopping.trans h1.stopping, h2.stopper.trans h1.stopper,
+    h2.closest.trans h1.closest, Nat.le_trans h1.out_le h2.out_le, fun h => h2.core (h1.core h),
+    h2.unqSub.trans h1.unqSub, ?_, ?_⟩
+  · intro k hk
+    rcases h2.queriedMem k hk with h | ⟨n, hn, e⟩
+    · exact h1.queriedMem k h
+    · exact Or.inr ⟨n, h1.unqSub.subset hn, e⟩
+  · intro e he
+    rcases h2.inflMem e he with h | h
+    · exact h1.inflMem e h
+    · exact Or.inr h
+
+theorem Trav.startQuery_launch (c : TravCfg) (s : Trav) : Trav.Launch c s (s.startQuery c) := by
+  rcases Trav.startQuery_cases c s with ⟨_, h⟩ | ⟨a, rest, hu, ⟨hq, h⟩ | ⟨hq, h⟩⟩ <;> rw [h]
+  · exact Trav.Launch.refl c s
+  · refine ⟨rfl, rfl, rfl, rfl, rfl, Nat.le_refl _, ?_, ?_, fun _ h => Or.inl h, fun _ h => Or.inl h⟩
+    · intro hc
+      refine ⟨?_, hc.queriedEq, hc.nodup, hc.inflSub, hc.outEq, hc.runGen, hc.stopGen, hc.stopOut, hc.stopIff⟩
+      have := hc.sorted
+      rw [hu] at this
+      exact (List.pairwise_cons.mp this).2
+    · rw [hu]; exact List.sublist_cons_self a rest
+  · have hnot : a.addr.strKey ∉ s.queried := by
+      intro hm
+      have := List.contains_iff_mem.mpr hm
+      rw [hq] at this; cases this
+    refine ⟨rfl, rfl, rfl, rfl, rfl, Nat.le_succ _, ?_, ?_, ?_, ?_⟩
+    · intro hc
+      refine ⟨?_, ?_, ?_, ?_, ?_, hc.runGen, hc.stopGen, ?_, hc.stopIff⟩
+      · have := hc.sorted
+        rw [hu] at this
+        exact (List.pairwise_cons.mp this).2
+      · simp [hc.queriedEq]
+      · show (s.queried ++ [a.addr.strKey]).Nodup
+        rw [List.nodup_append]
+        refine ⟨hc.nodup, by simp, ?_⟩
+        intro x hx y hy
+        simp only [List.mem_singleton] at hy
+        subst hy
+        intro e; subst e; exact hnot hx
+      · show ((s.inflight ++ [(a.addr, QPhase.inDoQuery)]).map (·.1)).Sublist (s.started ++ [a.addr])
+        rw [List.map_append]
+        exact List.Sublist.append hc.inflSub (List.Sublist.refl _)
+      · show s.outstanding + 1 = (s.inflight ++ [(a.addr, QPhase.inDoQuery)]).length
+        simp [hc.outEq]
+      · intro g _ _
+        show s.outstanding + 1 ≠ 0
+        omega
+    · rw [hu]; exact List.sublist_cons_self a rest
+    · intro k hk
+      show k ∈ s.queried ∨ _
+      have hk' : k ∈ s.queried ++ [a.addr.strKey] := hk
+      rcases List.mem_append.mp hk' with h | h
+      · exact Or.inl h
+      · right
+        refine ⟨a, by rw [hu]; simp, ?_⟩
+        exact (List.mem_singleton.mp h).symm
+    · intro e he
+      have he' : e ∈ s.inflight ++ [(a.addr, QPhase.inDoQuery)] := he
+      rcases List.mem_append.mp he' with h | h
+      · exact Or.inl h
+      · right
+        simp only [List.mem_singleton] at h
+        rw [h]
+
+theorem Trav.startLoop_launch (c : TravCfg) (fuel : Nat) (s : Trav) : Trav.Launch c s (Trav.startLoop c fuel s) := by
+  induction fuel generalizing s with
+  | zero => exact Trav.Launch.refl c s
+  | succ fuel ih =>
+    unfold Trav.startLoop
+    split
+    · exact (Trav.startQuery_launch c s).trans (ih _)
+    · exact Trav.Launch.refl c s
+
+theorem Trav.haveQuery_nonempty (c : TravCfg) (s : Trav) (h : s.haveQuery c = true) : s.unq ≠ [] := by
+  intro e
+  unfold Trav.haveQuery at h
+  rw [e] at h
+  cases h
+
+theorem Trav.startQuery_unq (c : TravCfg) (s : Trav) : (s.startQuery c).unq = s.unq.tail := by
+  rcases Trav.startQuery_cases c s with ⟨hu, h⟩ | ⟨a, rest, hu, ⟨hq, h⟩ | ⟨hq, h⟩⟩ <;> rw [h, hu] <;> rfl
+
+/-- With enough fuel the loop runs until its condition fails. -/
+theorem Trav.startLoop_done (c : TravCfg) (fuel : Nat) (s : Trav) (hf : s.unq.length < fuel) :
+    ((Trav.startLoop c fuel s).outstanding < c.alpha ∧ (Trav.startLoop c fuel s).haveQuery c = true) → False := by
+  induction fuel generalizing s with
+  | zero => omega
+  | succ fuel ih =>
+    unfold Trav.startLoop
+    split
+    · rename_i hcond
+      apply ih
+      simp only [Bool.and_eq_true, decide_eq_true_eq] at hcond
+      have hne := Trav.haveQuery_nonempty c s hcond.2
+      rw [Trav.startQuery_unq]
+      cases hu : s.unq with
+      | nil => exact absurd hu hne
+      | cons a rest =>
+        rw [hu] at hf
+        simp only [List.length_cons] at hf
+        simp only [List.tail_cons]
+        omega
+    · rename_i hcond
+      intro ⟨h1, h2⟩
+      apply hcond
+      simp [h1, h2]
 
 end Dht
